@@ -308,6 +308,15 @@ def sub_many_tracks(ctx, shard, n):
     mt = [{"comp": _many_tracks(k), "bpm": 120} for k in (9, 10, 11, 15, 16, 17, 20, 33, 100, 256, 300)]
     ctx.exhaustive("compositions of many tracks", "9 .. 300 tracks", len(mt))
     ctx.enumerate("roundtrip", check_roundtrip, mt)
+    # bars holding one entry (a rest or a note of value 1, 2, 4 or the beat unit) in every meter
+    lone = []
+    for t in SG.lone_entry_tracks():
+        for b in t["bars"]:
+            for e in b["entries"]:
+                if e["notes"] == []:
+                    e["notes"] = None
+        lone.append({"comp": {"title": "lone", "subtitle": "", "author": "", "tracks": [t]}, "bpm": 120})
+    ctx.enumerate("roundtrip", check_roundtrip, lone)
 
 
 def sub_corrupt(ctx, shard, n):
